@@ -1,5 +1,6 @@
 import SwcVerif.Props.C07
 import SwcVerif.Props.C07Cat
+import SwcVerif.Props.C07Gen
 #print axioms C07.rootPath_spec
 #print axioms C07.redirect_pids
 #print axioms C07.redirect_edges
@@ -9,6 +10,16 @@ import SwcVerif.Props.C07Cat
 #print axioms C07.translate_coincides
 #print axioms C07.cat_separate
 #print axioms C07.cat_merged
+#print axioms RefineRedirect.node_parent_spec
+#print axioms RefineRedirect.while_path
+#print axioms RefineRedirect.for2_loop
+#print axioms RefineRedirect.sortTree_refines
+#print axioms RefineRedirect.redirect_core
+#print axioms C07.generated_parent
+#print axioms C07.generated_redirect_eq_model
+#print axioms C07.generated_redirect_root
+#print axioms C07.generated_redirect_sorted
+#print axioms C07.generated_redirect_sorted_eq_model
 #print axioms C07.second_wfr
 #print axioms C07.cat_separate_wfr
 #print axioms C07.cat_separate_sorted
